@@ -19,6 +19,24 @@ CHECKS = {
  'C29': ('exploration', 'exhaustive pairs and triples over per-type edge domains',
          'For 35 key type families (all integer widths incl. all 256 int8/uint8 values, floats with NaN payloads/signed zeros/subnormals, strings, UUIDs, times in several zones, slices incl. prefixes, []any with equal-typed positions) every ordered pair and ordered triple of the edge domain is evaluated with btree.Compare and with CoerceComparer(x) for the domain values: reflexive, antisymmetric, transitive, equal to an independently written natural order, and Compare == coerced comparer.',
          'Edge-value domains per type (not all 2^64 values); -0/+0 may be equal or ordered as long as the order is consistent.', '6/C29', 'SEQX', True),
+ 'C02': ('exploration', 'stateless model checking: controlled scheduler + deviation-bounded DFS over all interleavings; brute-force serial-order oracle',
+         'Concurrent transaction programs (lost update, write skew in one node / sibling nodes / two stores, reader vs atomic pair, add/remove vs read-modify-write, separate-segment values, three writers, a stalled committer) run through the public infs API under a cooperative scheduler that owns every L2 cache call, registry block I/O, file operation and sleep; every schedule with at most 1 deviation (2 for marked scenarios; +1 in thorough) is executed, and for each one all serial orders of the committed transactions are tried against a map model (every read value, every call result, final contents read cold).',
+         'Single OS process with the in-memory L2 cache; a thread runs atomically between scheduling points; intra-transaction goroutines inline; preemption bound as reported; known findings are matched by mechanism tag (trace pattern) so any other non-serializable outcome is reported.', '6/C02', 'SCHED', True),
+ 'C03': ('exploration', 'stateless model checking: controlled scheduler + deviation-bounded DFS; item-level visibility oracle with commit points',
+         'A writer (update+add+remove; in-node, separate-segment and actively persisted values; ending in commit or rollback; also two conflicting writers) runs against ForReading and NoCheck readers (get, count, scan) under every schedule within the deviation bound; every value, item and count a reader returns must come from the initial state or from a writer whose commit point (last phase-2 registry block write, taken from the trace) had been reached when the call returned.',
+         'Same engine assumptions as C02. Stale or mixed-snapshot reads are not judged here (C20/C02); a call that returned an error observed nothing.', '6/C03', 'SCHED', True),
+ 'C04': ('exploration', 'stateless model checking: controlled scheduler + deviation-bounded DFS; every writer must commit, final = union',
+         'Two or three writers with disjoint key sets (adds in one leaf, adds splitting the same leaf, first root of an empty store, update vs remove, removes emptying sibling leaves, separate-segment values) under every schedule within the deviation bound with the default 15-minute commit budget on a virtual clock: every Commit must return nil and the cold final contents must equal the union.',
+         'Same engine assumptions as C02; fairness by construction (a sleeping thread is always woken when nothing else can run).', '6/C04', 'SCHED', True),
+ 'C05': ('exploration', 'stateless model checking: controlled scheduler + deviation-bounded DFS; duplicate-key scan',
+         'Two or three transactions add / upsert / add-if-absent the SAME key into a unique store (empty without root, with neighbours, forcing a split) under every schedule within the deviation bound; afterwards a cold ordered scan must not contain two equal keys and Count must equal the scan length.',
+         'Same engine assumptions as C02.', '6/C05', 'SCHED', True),
+ 'C06': ('exploration', 'stateless model checking: controlled scheduler + deviation-bounded DFS; count == scan length',
+         'Concurrent writers whose adds/removes collide or are rolled back (adds and removes, conflicting add of the same key, remove of the same key, rollback vs commit) under every schedule within the deviation bound; in a cold fresh transaction Count() must equal the number of scanned items for every store. (The fault and crash histories of C01/C07/C08 check the same equality in their own verifiers.)',
+         'Same engine assumptions as C02.', '6/C06', 'SCHED', True),
+ 'C20': ('exploration', 'stateless model checking: controlled scheduler + deviation-bounded DFS with an environment thread (cache eviction / clear / TTL expiry events)',
+         'A thread commits a write and then starts a new reading transaction while a concurrent reader (and, in some scenarios, an environment thread that evicts L1, clears L2 or advances the virtual clock past the cache TTLs) is scheduled at every position within the deviation bound; a read of a transaction that began after a Commit returned must return that commit (or a later one), and after quiescence the warm view of a new transaction must equal the cold view.',
+         'Standalone (in-memory L2) caching only: the Redis adapter is not exercised (no Redis server or miniredis in this sandbox); one OS process.', '6/C20', 'SCHED', True),
 }
 NA_REASON = 'check not built yet in this session; no claim is made (see DESIGN.md section 6 for the plan)'
 
@@ -53,6 +71,7 @@ manifest = {
         'add_only': True,
     },
     'engines': [
+        {'name': 'SCHED', 'path': 'mc/sched', 'serves_properties': [p for p in ids if p in CHECKS and CHECKS[p][5] == 'SCHED'], 'kind_free_text': 'cooperative scheduler over hooked L2/registry/file/sleep operations of the real code + deviation-bounded DFS (stateless model checking), sharded over worker processes'},
         {'name': 'SEQX', 'path': 'mc/cmd', 'serves_properties': [p for p in ids if p in CHECKS and CHECKS[p][5] == 'SEQX'], 'kind_free_text': 'bounded exhaustive operation-sequence / explicit-state search driving the real code, reference-model oracle'},
     ],
     'checks': checks,
